@@ -268,6 +268,10 @@ def rule_blockwise(repo: Repo, rep: Report) -> int:
 
 
 def run(repo: Repo, rep: Report, tier: str) -> None:
+    if tier == "thorough":
+        from .c01 import thorough_evaluations
+
+        thorough_evaluations(repo, rep)
     n = rule_right_inverse(repo, rep)
     n += rule_inverse_form(repo, rep)
     n += rule_blockwise(repo, rep)
